@@ -575,6 +575,11 @@ pub fn violation_cases() -> Vec<(&'static str, &'static str, Vec<Vec<Step>>, Vec
     ("C05", "C05.bounded.hidden_read_after_a_legal_transitive_read_aborts", vec![vec![Require(4, 1), Require(1, 1), Read(2, 0), Require(2, 1)], vec![Require(3, 1)], vec![Read(3, 0)], vec![Write(2, 1)], vec![Write(3, 1)]], vec![Act::TopDown(0)], "Hidden dependency"),
     ("C05", "C05.bounded.hidden_write_after_a_legal_transitive_read_aborts", vec![vec![Require(2, 1), Require(1, 1), Read(2, 0), Require(4, 1)], vec![Require(3, 1)], vec![Read(3, 0)], vec![Write(2, 1)], vec![Write(3, 1)]], vec![Act::TopDown(0)], "Hidden dependency"),
     ("C05", "C05.bounded.hidden_read_by_a_task_with_unrelated_requires_aborts", vec![vec![Require(1, 1), Require(2, 1)], vec![Write(2, 1)], vec![Require(3, 0), Read(0, 0), Read(2, 0)], vec![Read(1, 0)]], vec![Act::TopDown(0)], "Hidden dependency"),
+    ("C05", "C05.bounded.read_then_write_of_the_same_resource_by_one_task_aborts", vec![vec![Read(2, 0), Write(2, 1)]], vec![Act::TopDown(0)], "Hidden dependency"),
+    // Top reads what Gen generates and requires Gen only through Mid; Mid later stops requiring Gen (its requirer is not re-executed);
+    // when Gen then writes again, the recorded reader no longer depends on it
+    ("C05", "C05.bounded.hidden_write_after_an_intermediate_task_dropped_its_require_aborts", vec![vec![Require(1, 1), Read(2, 0)], vec![Read(0, 1), IfOdd(vec![Require(2, 1)], vec![])], vec![Read(1, 0), Write(2, 1)]],
+       vec![Act::Set(0, 2), Act::Set(1, 0), Act::TopDown(0), Act::Set(0, 1), Act::TopDown(1), Act::Set(1, 1), Act::TopDown(2)], "Hidden dependency"),
     ("C06", "C06.bounded.overlapping_write_aborts", vec![vec![Require(1, 1), Require(2, 1)], vec![Write(2, 1)], vec![Write(2, 2)]], vec![Act::TopDown(0)], "Overlapping write"),
     ("C06", "C06.bounded.overlapping_declared_write_aborts", vec![vec![Require(1, 1), Require(2, 1)], vec![Write(2, 1)], vec![WrittenTo(2, 2)]], vec![Act::TopDown(0)], "Overlapping write"),
     ("C06", "C06.bounded.overlap_with_requirer_that_wrote_first_aborts", vec![vec![Write(2, 1), Require(1, 1)], vec![Write(2, 2)]], vec![Act::TopDown(0)], "Overlapping write"),
@@ -764,6 +769,28 @@ pub fn stampless_checkers() -> Result<(), Fail> {
     pie.resource_state_mut::<Res>().get_global_map_mut().insert(Res(8), 3);
     let out = pie.new_session().require(&NeedsEven(8));
     if runs() != 2 || out != 3 { fail!("C09", "C09.bounded.stampless_checker_decides", "the required task now returns 3, which the stamp-less output checker rejects, but the requirer was not re-executed ({} executions, output {})", runs(), out); }
+  }
+  Ok(())
+}
+
+// ---- C18: the errors a session reports accumulate over all builds of the session -------------------------------------------------
+pub fn session_errors_accumulate() -> Result<(), Fail> {
+  PROG.with(|p| *p.borrow_mut() = vec![vec![Step::Read(0, 3)], vec![Step::Read(1, 0)]]); PANIC_IN.with(|p| p.set(None));
+  for bottom_up_first in [false, true] {
+    let mut pie = new_pie();
+    pie.resource_state_mut::<Res>().get_global_map_mut().insert(Res(0), 1);
+    pie.resource_state_mut::<Res>().get_global_map_mut().insert(Res(1), 1);
+    FAIL_CHECK.with(|f| f.set(false));
+    { let mut s = pie.new_session(); s.require(&T(0)); s.require(&T(1)); }
+    let mut s = pie.new_session();
+    FAIL_CHECK.with(|f| f.set(true));
+    if bottom_up_first { let mut b = s.create_bottom_up_build(); b.schedule_tasks_affected_by(&Res(0)); b.update_affected_tasks(); } else { s.require(&T(0)); }
+    FAIL_CHECK.with(|f| f.set(false));
+    let after_first = s.dependency_check_errors().len();
+    if after_first == 0 { fail!("C18", "C18.bounded.check_errors_are_reported", "a dependency check failed during the first build of a session ({}), the session reports no error", if bottom_up_first { "bottom-up" } else { "top-down" }); }
+    s.require(&T(1));
+    let after_second = s.dependency_check_errors().len();
+    if after_second < after_first { fail!("C18", "C18.bounded.errors_of_a_session_accumulate_over_its_builds", "the session reported {} dependency-check error(s) after its first build ({}), {} after a second build", after_first, if bottom_up_first { "bottom-up" } else { "top-down" }, after_second); }
   }
   Ok(())
 }
